@@ -10,6 +10,7 @@ import (
 	"os"
 	"runtime/debug"
 	"sort"
+	"strings"
 	"syscall"
 
 	"verifharness/internal/fw"
@@ -37,6 +38,11 @@ type Worker struct {
 	Phase   string
 	Verbose bool
 	Replay  bool
+	// Company is the number of background goroutines that execute the self-checking
+	// battery of cmd/vworker/company.go (separate environments, separate trees) while
+	// the cases of this process run: phases named "<phase>+company".
+	Company  int
+	recPhase string // phase name written into records (with the +company suffix)
 
 	curF *os.File
 	resF *os.File
@@ -80,6 +86,7 @@ func Main() {
 		verbose = flag.Bool("v", false, "verbose (replay)")
 		replay  = flag.Bool("replay", false, "replay mode: print details of the case")
 		child   = flag.String("child", "", "internal: run as a child helper of an engine")
+		company = flag.Int("company", 3, "goroutines of company for phases named <phase>+company")
 	)
 	flag.Parse()
 	if *child != "" {
@@ -103,8 +110,14 @@ func Main() {
 		fmt.Println(string(b))
 		return
 	}
-	w := &Worker{Prop: *prop, Tier: *tier, Seed: *seed, Phase: *phase, Verbose: *verbose, Replay: *replay,
+	w := &Worker{Prop: *prop, Tier: *tier, Seed: *seed, Phase: *phase, Verbose: *verbose, Replay: *replay, recPhase: *phase,
 		tags: map[string]int{}, extra: map[string]int{}, hashes: map[uint64]struct{}{}, seenAll: map[uint64]struct{}{}}
+	if strings.HasSuffix(*phase, CompanySuffix) {
+		// the cases are those of the base phase (same PRNG seeds); only the process they run in differs
+		*phase = strings.TrimSuffix(*phase, CompanySuffix)
+		w.Phase = *phase
+		w.Company = *company
+	}
 	if *out != "" {
 		var err error
 		w.resF, err = os.OpenFile(*out+".res", os.O_CREATE|os.O_WRONLY|os.O_APPEND, 0o644)
@@ -125,10 +138,16 @@ func Main() {
 	if e.Init != nil {
 		e.Init(w)
 	}
+	var stopCompany func() CompanyReport
+	if w.Company > 0 && CompanyStart != nil {
+		stopCompany = CompanyStart(w.Company, fw.CaseSeed(*seed, *prop, w.recPhase, *lo), *prop)
+	}
+	var lastCase *Case
 	for i := *lo; i < *hi; i++ {
 		c := &Case{W: w, Index: i, Phase: *phase, Tier: *tier,
 			Rng: rand.New(rand.NewSource(fw.CaseSeed(*seed, *prop, *phase, i)))}
 		w.lastCase = i
+		lastCase = c
 		c.Begin(nil)
 		e.Run(c)
 		w.sinceCkpt++
@@ -139,6 +158,22 @@ func Main() {
 			// the verdict of this chunk is decided; do not burn time on the rest
 			w.tags["fail-fast:cases-not-run"] += *hi - i - 1
 			break
+		}
+	}
+	if stopCompany != nil && lastCase != nil {
+		rep := stopCompany()
+		lastCase.Count("company_executions", rep.Runs)
+		lastCase.Count("company_goroutines", w.Company)
+		lastCase.Events(rep.Runs)
+		for item, n := range rep.PerItem {
+			lastCase.Count("company_item:"+item, n)
+		}
+		for _, m := range rep.Mismatches {
+			if m.Judged {
+				lastCase.Violation("company:"+m.Item, m.Detail, map[string]interface{}{"company_item": m.Item, "source": m.Src, "lo": *lo, "hi": *hi})
+			} else {
+				lastCase.Tag("company-mismatch-of-another-property:" + m.Item)
+			}
 		}
 	}
 	w.flush("done")
@@ -152,8 +187,28 @@ var children = map[string]func(args []string){}
 // RegisterChild registers a helper mode reachable as `vworker -child name args...`.
 func RegisterChild(name string, f func(args []string)) { children[name] = f }
 
+// CompanySuffix marks a phase whose cases are those of the base phase, run while
+// background goroutines of the same process execute other programs.
+const CompanySuffix = "+company"
+
+// CompanyMismatch is one self-check of the company that failed.
+type CompanyMismatch struct {
+	Item, Detail, Src string
+	Judged            bool // the item is an instance of the statement of the property being checked
+}
+
+// CompanyReport is what the company observed about its own executions.
+type CompanyReport struct {
+	Runs       int
+	PerItem    map[string]int
+	Mismatches []CompanyMismatch
+}
+
+// CompanyStart is set by cmd/vworker: it starts k goroutines and returns the function that stops them.
+var CompanyStart func(k int, seed int64, prop string) (stop func() CompanyReport)
+
 func (w *Worker) write(r *fw.Rec) {
-	r.Phase = w.Phase
+	r.Phase = w.recPhase
 	b, err := json.Marshal(r)
 	if err != nil {
 		b, _ = json.Marshal(&fw.Rec{T: r.T, Phase: w.Phase, Case: r.Case, Sig: r.Sig, Detail: "unmarshalable record: " + err.Error()})
